@@ -307,6 +307,64 @@ def run(model: RepoModel, rep, tier: str):
     # union over paths / over argument states: shared with C08.R4
     from .c08 import check_accumulating_loops
     check_accumulating_loops(model, rep, "C09.R4")
+    check_call_site_budget(model, rep, "C09.R6", declare=True)
+
+
+def check_call_site_budget(model: RepoModel, rep, RID: str, declare: bool = False):
+    """The scheduler of the top-down phase counts, per call site and entry point, how often the site was handled and stops scheduling the
+    callee once `counter <op> MAX` holds.  Handling one calling context raises the counter once per increment statement on the way
+    (scheduling the callee, applying its summary).  For a call site reached under two calling contexts to be analysed under both --
+    which is what keeps the arguments of the two contexts apart -- the cut-off must still be false after ONE context."""
+    if declare:
+        rep.rule(RID, "the per-call-site budget admits a second calling context: with c increments of the counter per handled context, the "
+                      "cut-off `counter <op> MAX_ANALYSIS_ROUND_FOR_CALL_SITE` is false for counter == c", 1)
+    GSS = "core/global_stmt_states.py"
+    mod = model.module(GSS)
+    cfgm = model.module("config/config.py")
+    consts = {t.id: n.value.value for n in cfgm.tree.body if isinstance(n, ast.Assign) and isinstance(n.value, ast.Constant)
+              and isinstance(n.value.value, int) for t in n.targets if isinstance(t, ast.Name)}
+    found = 0
+    for f in mod.all_funcs():
+        cuts = []
+        for cmp_ in walk_no_nested(f.node):
+            if isinstance(cmp_, ast.Compare) and len(cmp_.ops) == 1:
+                sides = [cmp_.left, cmp_.comparators[0]]
+                cst = [x for x in sides if isinstance(x, ast.Attribute) and x.attr in consts and "CALL_SITE" in x.attr]
+                cnt = [x for x in sides if x not in cst and any(isinstance(y, ast.Attribute) and "counter" in y.attr for y in ast.walk(x))]
+                if cst and cnt:
+                    cuts.append((cmp_, cst[0], cnt[0], cnt[0] is cmp_.left))
+        if not cuts:
+            continue
+        cmp_, cst, cnt, counter_left = cuts[0]
+        counter_attr = next(y.attr for y in ast.walk(cnt) if isinstance(y, ast.Attribute) and "counter" in y.attr)
+        incs = []
+        for st in walk_no_nested(f.node):
+            if isinstance(st, ast.AugAssign) and isinstance(st.op, ast.Add) and any(isinstance(y, ast.Attribute) and y.attr == counter_attr for y in ast.walk(st.target)) \
+                    and isinstance(st.value, ast.Constant) and st.value.value == 1:
+                incs.append(st)
+            if isinstance(st, ast.Assign) and any(isinstance(y, ast.Attribute) and y.attr == counter_attr for t in st.targets for y in ast.walk(t)) \
+                    and isinstance(st.value, ast.BinOp) and isinstance(st.value.op, ast.Add) and isinstance(st.value.right, ast.Constant) and st.value.right.value == 1:
+                incs.append(st)
+        found += 1
+        c = len(incs)
+        mx = consts[cst.attr]
+        import operator as _op
+        OPS = {ast.Gt: _op.gt, ast.GtE: _op.ge, ast.Lt: _op.lt, ast.LtE: _op.le, ast.Eq: _op.eq, ast.NotEq: _op.ne}
+        fn = OPS.get(type(cmp_.ops[0]))
+        key = f"{GSS}::{f.qualname}::the call-site budget admits a second calling context"
+        if fn is None or c == 0:
+            rep.unknown(RID, key, GSS, cmp_.lineno, f"cut-off `{norm(cmp_)}` / increments of {counter_attr} not recognised")
+            continue
+        fires = fn(c, mx) if counter_left else fn(mx, c)
+        if fires:
+            rep.violation(RID, key, GSS, cmp_.lineno,
+                          f"{f.qualname} stops scheduling a callee when `{norm(cmp_)}`; handling one calling context raises the counter {c} time(s) "
+                          f"(lines {[i.lineno for i in incs]}) and {cst.attr} = {mx}, so the cut-off already holds after the FIRST context: a call "
+                          f"site reached under a second calling context is never analysed with that context's arguments")
+        else:
+            rep.holds(RID, key, GSS, cmp_.lineno, f"`{norm(cmp_)}` is false for counter == {c} ({c} increments per context, {cst.attr} = {mx})")
+    if not found:
+        raise AnalysisError("the per-call-site budget test (counter vs MAX_ANALYSIS_ROUND_FOR_CALL_SITE) is no longer recognised in global_stmt_states.py")
 
 
 def check_callsite_identity(model: RepoModel, rep, RID: str):
